@@ -277,14 +277,10 @@ def first_touch(xs):
 
 def cmp_sets(ans, touched, argnames):
     diffs = []
-    if "ds" in argnames:
-        # the ORDER the model fixes: the sweep reads idxs_ds[idx0] cell by cell in the order of the loop (seq, or
-        # seq reversed); first-touch order, so that a second read of the same entry is not a difference
-        m = first_touch(list(reversed(ans.get("log.ds", []))))       # the log is newest first
-        i = touched.get("@order:ds", [])
-        if set(m) == set(i) and m != i:
-            k = next(j for j in range(len(m)) if m[j] != i[j])
-            diffs.append(f"ds: order of first reads differs at position {k}: model {m[k:k+6]}, implementation {i[k:k+6]}")
+    # The ORDER of the reads is NOT compared (it was, in the first version: the harmless rewrite C04-h1 collects the links
+    # in one forward pass over seq before it accumulates in reverse - same cells, another order - and the check answered
+    # `no-failing-input-found`).  "In bounds" is a statement about WHICH entries are addressed; the per-array sets below are
+    # the tie between the theorem's log and the code, the direct bounds check of every recorded access is the judge.
     for a in argnames:
         m = set(ans.get("log." + a, []))
         i = touched.get(a, set())
